@@ -173,3 +173,94 @@ _add(Cond('batch_ops_pairing', [('v0', 'int'), ('v1', 'int'), ('v2', 'int'), ('k
         functions=['Batch._apply_attr', 'Batch.apply', 'Batch.to_frame'],
         bounds='Batch of 3 frames with UNBOUNDED symbolic cells; selection position symbolic; chained selection, operator, apply, reduction and to_frame',
         route='Batch: for every label the result of the operation applied to that label\'s Frame; to_frame concatenates exactly those results', timeout=300))
+
+
+# ---------------------------------------------------------------- Quilt over 1..3 member frames: export and views
+
+def body_quilt_members(env, n, axis_flag, retain):
+    from vf import rt
+    n, axis, retain = concretize(n, 1, 3), (1 if axis_flag else 0), bool(retain)
+
+    def run():
+        sf = env.sf
+        names = ['p', 'q', 'r'][:n]
+        frames, rows_all, labels_all = [], [], []
+        for k, nm in enumerate(names):
+            rows = [[100 * (k + 1) + 10 * i + j for j in range(2)] for i in range(2)]
+            own = [10 * (k + 1) + 1, 10 * (k + 1) + 2]       # labels on the quilt axis: unique across members
+            if axis == 0:
+                frames.append(sf.Frame.from_items((('a', env.array([rows[0][0], rows[1][0]], 'int64')), ('b', env.array([rows[0][1], rows[1][1]], 'int64'))), index=own, name=nm))
+            else:
+                frames.append(sf.Frame.from_items(((own[0], env.array([rows[0][0], rows[1][0]], 'int64')), (own[1], env.array([rows[0][1], rows[1][1]], 'int64'))), index=['a', 'b'], name=nm))
+            rows_all.append(rows)
+            labels_all += [[nm, l] if retain else l for l in own]
+        bus = sf.Bus.from_frames(frames)
+        q = sf.Quilt(bus, axis=axis, retain_labels=retain)
+        if axis == 0:
+            table = [r for rows in rows_all for r in rows]
+            index, columns = labels_all, ['a', 'b']
+        else:
+            table = [[v for rows in rows_all for v in rows[i]] for i in range(2)]
+            index, columns = ['a', 'b'], labels_all
+
+        def lab(ix):
+            return env.obs([list(t) for t in ix]) if ix.depth > 1 else env.obs(ix.values.tolist())
+        f = q.to_frame()
+        sel = q.iloc[:, :] if False else q.loc[:, :]
+        got = [list(q.shape), lab(q.index), lab(q.columns),
+               list(f.shape), lab(f.index), lab(f.columns), env.obs(f.values.tolist()),
+               lab(sel.index), lab(sel.columns), env.obs(sel.values.tolist()), env.obs(q.values.tolist())]
+        shape = [len(table), len(table[0])]
+        exp = [shape, index, columns, shape, index, columns, table, index, columns, table, table]
+        return got, exp
+    return rt.untraced(run)
+
+
+_add(Cond('quilt_member_count_export', [('n', 'int'), ('axis_flag', 'bool'), ('retain', 'bool')], body_quilt_members, ranges={'n': (1, 3)},
+        functions=['Quilt.to_frame', 'Quilt._extract'],
+        bounds='Quilt over a Bus of 1..3 frames of 2x2 (member count symbolic); axis and retain_labels symbolic',
+        route='Quilt.shape / index / columns / to_frame / loc[:, :] / values equal the concatenated Frame, with the Bus label as outer level when retained, for every member count (also a single member)', timeout=300))
+
+
+# ---------------------------------------------------------------- Batch reductions == the member Frame's own reduction
+
+BATCH_OPS = ('sum', 'mean', 'median', 'min', 'max', 'prod', 'std', 'var')
+
+
+def body_batch_reduce(env, op, axis_flag, skipna, lay):
+    from vf import rt
+    from vf import layouts
+    op = BATCH_OPS[concretize(op, 0, len(BATCH_OPS) - 1)]
+    axis, skipna = (1 if axis_flag else 0), bool(skipna)
+    layout = (((1, 1), (2, 2)), ((2, 2), (1, 1)), ((1, 1), (1, 1), (1, 1)), ((2, 3),))[concretize(lay, 0, 3)]
+
+    def run():
+        sf = env.sf
+        from static_frame.core.type_blocks import TypeBlocks
+
+        def frames():
+            out = []
+            for k, nm in enumerate(('x', 'y')):
+                rows = [[3 + 7 * k, 10, 25], [1, 2 + k, 200], [6, 40, 9 + k]]       # uneven magnitudes: a mean of block means differs
+                cols = [[float(rows[r][c]) for r in range(3)] for c in range(3)]
+                tb = TypeBlocks.from_blocks(layouts.build_blocks(env, cols, 'float64', layout))
+                out.append(sf.Frame(tb, index=[10, 11, 12], columns=['a', 'b', 'c'], name=nm))
+            return out
+        res = getattr(sf.Batch.from_frames(frames()), op)(axis=axis, skipna=skipna)
+        got = [[env.obs(n), env.obs(r.index.values.tolist()), env.obs(r.values.tolist())] for n, r in res.items()]
+        exp = []
+        for f in frames():
+            r = getattr(f, op)(axis=axis, skipna=skipna)
+            exp.append([f.name, env.obs(r.index.values.tolist()), env.obs(r.values.tolist())])
+        fr = getattr(sf.Batch.from_frames(frames()), op)(axis=axis, skipna=skipna).to_frame()
+        got.append([env.obs(fr.index.values.tolist()), env.obs(fr.values.tolist())])
+        exp.append([[e[0] for e in exp], [e[2] for e in exp]])
+        return got, exp
+    return rt.untraced(run)
+
+
+_add(Cond('batch_reductions_equal_member_reductions', [('op', 'int'), ('axis_flag', 'bool'), ('skipna', 'bool'), ('lay', 'int')], body_batch_reduce,
+        ranges={'op': (0, len(BATCH_OPS) - 1), 'lay': (0, 3)},
+        functions=['Batch._ufunc_axis_skipna'],
+        bounds=f'Batch of two 3x3 float64 frames in one of four block layouts (symbolic); reduction symbolic over {BATCH_OPS}; axis and skipna symbolic; concrete cells',
+        route='Batch.<reduction>(axis, skipna): per label exactly Frame.<reduction>(axis, skipna) of that member; to_frame stacks those results', timeout=300))
